@@ -221,6 +221,23 @@ func TestC03(t *testing.T) {
 				return c03Deliver(e.app, ctx, &exchange.MsgCreateAskRequest{AskOrder: exchange.AskOrder{MarketId: e.marketID, Seller: a.String(),
 					Assets: sdk.NewCoin(d, amt), Price: sdk.NewInt64Coin("pricecoin", 10)}})
 			}},
+		{name: "new ask order with flat fee in the assets denom", class: "RNewHold", kinds: []int{kBase, kContVesting},
+			run: func(e *c03Env, ctx sdk.Context, a, o sdk.AccAddress, d string, amt sdkmath.Int) error {
+				// the reserved amount is assets + seller settlement flat fee (same denom): split it
+				fee := amt.QuoRaw(3)
+				if !fee.IsPositive() {
+					fee = sdkmath.OneInt()
+				}
+				assets := amt.Sub(fee)
+				if !assets.IsPositive() {
+					return fmt.Errorf("amount too small to split")
+				}
+				e.app.ExchangeKeeper.UpdateFees(ctx, &exchange.MsgGovManageFeesRequest{MarketId: e.marketID,
+					AddFeeSellerSettlementFlat: []sdk.Coin{sdk.NewCoin(d, fee)}})
+				feeCoin := sdk.NewCoin(d, fee)
+				return c03Deliver(e.app, ctx, &exchange.MsgCreateAskRequest{AskOrder: exchange.AskOrder{MarketId: e.marketID, Seller: a.String(),
+					Assets: sdk.NewCoin(d, assets), Price: sdk.NewInt64Coin("pricecoin", 10), SellerSettlementFlatFee: &feeCoin}})
+			}},
 		{name: "new bid order", class: "RNewHold", kinds: []int{kBase, kDelayedVesting},
 			run: func(e *c03Env, ctx sdk.Context, a, o sdk.AccAddress, d string, amt sdkmath.Int) error {
 				return c03Deliver(e.app, ctx, &exchange.MsgCreateBidRequest{BidOrder: exchange.BidOrder{MarketId: e.marketID, Buyer: a.String(),
